@@ -343,11 +343,66 @@ def intOfStrOf (v : PyVal) : Option Int :=
   | .ok t => pyIntParse 10 t
   | .error _ => none
 
+/-- `n` is not below the bound: exact rational comparison `p/q ≤ n` for a finite bound (any int, bool,
+    float, Decimal, Fraction), nothing is below `-inf` or a float NaN, everything is below `+inf`.
+    (A Decimal NaN cannot be compared at all.) -/
+def MinAllows (n : Int) : Bound → Prop
+  | .fin p q => p ≤ n * q
+  | .posInf => False
+  | .negInf => True
+  | .nan => True
+  | .decNan => False
+
+/-- `n` is not above the bound: `n ≤ p/q` exactly -/
+def MaxAllows (n : Int) : Bound → Prop
+  | .fin p q => n * q ≤ p
+  | .posInf => True
+  | .negInf => False
+  | .nan => True
+  | .decNan => False
+
+/-- an int, bool, finite float / Decimal, Fraction, or a float NaN: the bounds on which the code can
+    only answer by returning or by ValueError -/
+def Bound.plain : Bound → Bool
+  | .fin _ _ => true
+  | .nan => true
+  | _ => false
+
+theorem lemma_checkMax_iff (n m : Int) (hi : Option Bound) :
+    checkMax n hi = .ok m ↔ n = m ∧ ∀ u, hi = some u → MaxAllows n u := by
+  cases hi with
+  | none => simp [checkMax]
+  | some u =>
+    cases u with
+    | fin p q =>
+      by_cases h : n * q > p <;> simp [checkMax, intGtBound, rejectD, MaxAllows, h] <;> omega
+    | posInf => simp [checkMax, intGtBound, MaxAllows]
+    | negInf => simp [checkMax, intGtBound, rejectD, MaxAllows]
+    | nan => simp [checkMax, intGtBound, MaxAllows]
+    | decNan => simp [checkMax, intGtBound, MaxAllows]
+
+theorem lemma_checkMinMax_iff (n m : Int) (lo hi : Option Bound) :
+    checkMinMax n lo hi = .ok m ↔
+      n = m ∧ (∀ l, lo = some l → MinAllows n l) ∧ (∀ u, hi = some u → MaxAllows n u) := by
+  cases lo with
+  | none => simp [checkMinMax, lemma_checkMax_iff]
+  | some l =>
+    cases l with
+    | fin p q =>
+      by_cases h : n * q < p
+      · simp [checkMinMax, intLtBound, rejectD, MinAllows, h]; omega
+      · simp [checkMinMax, intLtBound, MinAllows, h, lemma_checkMax_iff]; omega
+    | posInf => simp [checkMinMax, intLtBound, rejectD, MinAllows]
+    | negInf => simp [checkMinMax, intLtBound, MinAllows, lemma_checkMax_iff]
+    | nan => simp [checkMinMax, intLtBound, MinAllows, lemma_checkMax_iff]
+    | decNan => simp [checkMinMax, intLtBound, MinAllows]
+
 /-- returns `n` exactly when `str(value)` is read by `int()` as `n` (see `validate_integer_str_iff`
-    for what that means for a str) and `n` is within the bounds that are set -/
-theorem validate_integer_iff (v : PyVal) (lo hi : Option Int) (n : Int) :
+    for what that means for a str) and `n` is within the bounds that are set — bounds of any numeric
+    type, compared exactly (`min_value = 7.5` excludes 7, `max_value = Decimal('-6.5')` excludes -6) -/
+theorem validate_integer_iff (v : PyVal) (lo hi : Option Bound) (n : Int) :
     validateInteger v lo hi = .ok n ↔
-      intOfStrOf v = some n ∧ (∀ l, lo = some l → l ≤ n) ∧ (∀ u, hi = some u → n ≤ u) := by
+      intOfStrOf v = some n ∧ (∀ l, lo = some l → MinAllows n l) ∧ (∀ u, hi = some u → MaxAllows n u) := by
   unfold validateInteger intOfStrOf
   cases hs : pyStr v with
   | error e => simp
@@ -356,71 +411,175 @@ theorem validate_integer_iff (v : PyVal) (lo hi : Option Int) (n : Int) :
     cases hp : pyIntParse 10 t with
     | none => simp
     | some m =>
-      simp only []
-      cases lo with
-      | none =>
-        cases hi with
-        | none => simp
-        | some u => by_cases h2 : m > u <;> simp [h2] <;> omega
-      | some l =>
-        cases hi with
-        | none => by_cases h1 : m < l <;> simp [h1] <;> omega
-        | some u => by_cases h1 : m < l <;> by_cases h2 : m > u <;> simp [h1, h2] <;> omega
+      simp only [lemma_checkMinMax_iff, Option.some.injEq]
+      constructor
+      · rintro ⟨rfl, h1, h2⟩; exact ⟨rfl, h1, h2⟩
+      · rintro ⟨rfl, h1, h2⟩; exact ⟨rfl, h1, h2⟩
 
 /-- for a str: returns `n` exactly when the text is an integer literal of value `n` within the bounds -/
-theorem validate_integer_str_iff (s : List Char) (lo hi : Option Int) (n : Int) :
+theorem validate_integer_str_iff (s : List Char) (lo hi : Option Bound) (n : Int) :
     validateInteger (.str s) lo hi = .ok n ↔
-      IntLiteral s n ∧ (∀ l, lo = some l → l ≤ n) ∧ (∀ u, hi = some u → n ≤ u) := by
+      IntLiteral s n ∧ (∀ l, lo = some l → MinAllows n l) ∧ (∀ u, hi = some u → MaxAllows n u) := by
   rw [validate_integer_iff, ← int_literal_iff]
   simp [intOfStrOf, pyStr]
 
-/-- and in every other case it raises ValueError (never another exception) -/
-theorem validate_integer_else (v : PyVal) (lo hi : Option Int) :
+theorem lemma_checkMax_else (n : Int) (hi : Option Bound) (h : ∀ u, hi = some u → u.plain = true) :
+    (∃ m, checkMax n hi = .ok m) ∨ checkMax n hi = .error .valueError := by
+  cases hi with
+  | none => simp [checkMax]
+  | some u =>
+    cases u with
+    | fin p q => by_cases h2 : n * q > p <;> simp [checkMax, intGtBound, rejectD, h2]
+    | nan => simp [checkMax, intGtBound]
+    | posInf => exact absurd (h _ rfl) (by decide)
+    | negInf => exact absurd (h _ rfl) (by decide)
+    | decNan => exact absurd (h _ rfl) (by decide)
+
+/-- … and in every other case it raises ValueError, never another exception.
+    PARTIAL: proved for bounds that are None, finite numbers or a float NaN.  What is missing: an
+    infinite bound that excludes the value makes the code raise OverflowError (the `%d` of the message,
+    finding C14-F3, see `validate_integer_infinite_bound`), a Decimal NaN bound raises
+    decimal.InvalidOperation. -/
+theorem validate_integer_else_partial (v : PyVal) (lo hi : Option Bound)
+    (hlo : ∀ l, lo = some l → l.plain = true) (hhi : ∀ u, hi = some u → u.plain = true) :
     (∃ n, validateInteger v lo hi = .ok n) ∨ validateInteger v lo hi = .error .valueError := by
   unfold validateInteger
-  repeat' split
-  all_goals simp
+  cases pyStr v with
+  | error e => simp
+  | ok t =>
+    simp only []
+    cases pyIntParse 10 t with
+    | none => simp
+    | some n =>
+      simp only []
+      cases lo with
+      | none => exact lemma_checkMax_else n hi hhi
+      | some l =>
+        cases l with
+        | fin p q =>
+          by_cases h2 : n * q < p
+          · simp [checkMinMax, intLtBound, rejectD, h2]
+          · simpa [checkMinMax, intLtBound, h2] using lemma_checkMax_else n hi hhi
+        | nan => simpa [checkMinMax, intLtBound] using lemma_checkMax_else n hi hhi
+        | posInf => exact absurd (hlo _ rfl) (by decide)
+        | negInf => exact absurd (hlo _ rfl) (by decide)
+        | decNan => exact absurd (hlo _ rfl) (by decide)
 
-/-- integers given as int or in canonical str form: accepted exactly within `[lo, hi]` -/
-theorem validate_integer_canonical (n : Int) (lo hi : Option Int) (h : overLimit (numDigits n) = false) :
+/-- finding C14-F3 as a theorem about the model: with `min_value = +inf` (or `max_value = -inf`) every
+    integer is out of range, and the code raises OverflowError instead of ValueError -/
+theorem validate_integer_infinite_bound (n : Int) (h : overLimit (numDigits n) = false) :
+    validateInteger (.int n) (some .posInf) none = .error .overflowError ∧
+    validateInteger (.int n) none (some .negInf) = .error .overflowError := by
+  simp [validateInteger, pyStr, pyStrInt, h, lemma_parse_render n h, checkMinMax, checkMax,
+    intLtBound, intGtBound, rejectD]
+
+/-- integers given as int or in canonical str form: accepted exactly within the bounds -/
+theorem validate_integer_canonical (n : Int) (lo hi : Option Bound) (h : overLimit (numDigits n) = false) :
     validateInteger (.int n) lo hi = validateInteger (.str (render n)) lo hi ∧
     (validateInteger (.str (render n)) lo hi = .ok n ↔
-      (∀ l, lo = some l → l ≤ n) ∧ (∀ u, hi = some u → n ≤ u)) := by
+      (∀ l, lo = some l → MinAllows n l) ∧ (∀ u, hi = some u → MaxAllows n u)) := by
   constructor
   · simp [validateInteger, pyStr, pyStrInt, h]
   · rw [validate_integer_iff]
     simp [intOfStrOf, pyStr, lemma_parse_render n h]
 
-example : validateInteger (.str [' ', '+', '1', '_', '0', '\n']) (some 10) (some 10) = .ok 10 := by decide
-example : validateInteger (.str ['9']) (some 10) none = .error .valueError := by decide
+example : validateInteger (.str [' ', '+', '1', '_', '0', '\n']) (some (.fin 10 1)) (some (.fin 10 1)) = .ok 10 := by
+  decide
+example : validateInteger (.str ['9']) (some (.fin 10 1)) none = .error .valueError := by decide
 example : validateInteger (.bool true) none none = .error .valueError := by decide
+/-- non-integral bounds are compared exactly: 7 < 7.5, -6 > -6.5, 0 < 1e-6 -/
+example : validateInteger (.int 7) (some (.fin 15 2)) none = .error .valueError ∧
+    validateInteger (.int 8) (some (.fin 15 2)) none = .ok 8 ∧
+    validateInteger (.str ['-', '6']) none (some (.fin (-13) 2)) = .error .valueError ∧
+    validateInteger (.int 0) (some (.fin 1 1000000)) none = .error .valueError ∧
+    validateInteger (.int 5) (some .nan) (some .nan) = .ok 5 := by decide
 
 /-! ### check_string_length -/
 
-/-- a str passes exactly when `min_length ≤ len` and (`max_length` is None or 0, or `len ≤ max_length`) -/
-theorem string_length_iff (s : List Char) (lo : Int) (hi : Option Int) :
-    checkStringLength (.str s) lo hi = .ok () ↔
-      lo ≤ (s.length : Int) ∧ (∀ m, hi = some m → m = 0 ∨ (s.length : Int) ≤ m) := by
-  unfold checkStringLength
+theorem lemma_checkMaxLength_iff (len : Int) (hi : Option Bound) :
+    checkMaxLength len hi = .ok () ↔ ∀ m, hi = some m → boundFalsy m = true ∨ MaxAllows len m := by
   cases hi with
-  | none => by_cases h : (s.length : Int) < lo <;> simp [h] <;> omega
+  | none => simp [checkMaxLength]
   | some m =>
-    by_cases h : (s.length : Int) < lo <;> by_cases h0 : m = 0 <;>
-      by_cases h2 : (s.length : Int) > m <;> simp [h, h0, h2] <;> omega
+    cases m with
+    | fin p q =>
+      by_cases h0 : p = 0 <;> by_cases h2 : len * q > p <;>
+        simp [checkMaxLength, intGtBound, boundFalsy, MaxAllows, h0, h2] <;> omega
+    | posInf => simp [checkMaxLength, intGtBound, boundFalsy, MaxAllows]
+    | negInf => simp [checkMaxLength, intGtBound, boundFalsy, MaxAllows]
+    | nan => simp [checkMaxLength, intGtBound, boundFalsy, MaxAllows]
+    | decNan => simp [checkMaxLength, intGtBound, boundFalsy, MaxAllows]
 
-/-- a str that does not pass raises ValueError; a non-str raises TypeError -/
-theorem string_length_else (v : PyVal) (lo : Int) (hi : Option Int) :
-    (∀ s, v = .str s → checkStringLength v lo hi = .ok () ∨ checkStringLength v lo hi = .error .valueError) ∧
+theorem lemma_checkMaxLength_else (len : Int) (hi : Option Bound) :
+    checkMaxLength len hi = .ok () ∨ checkMaxLength len hi = .error .valueError ∨
+      (checkMaxLength len hi = .error .invalidOperation ∧ hi = some .decNan) := by
+  cases hi with
+  | none => simp [checkMaxLength]
+  | some m =>
+    cases m with
+    | fin p q =>
+      by_cases h0 : p = 0 <;> by_cases h2 : len * q > p <;>
+        simp [checkMaxLength, intGtBound, boundFalsy, h0, h2]
+    | posInf => simp [checkMaxLength, intGtBound, boundFalsy]
+    | negInf => simp [checkMaxLength, intGtBound, boundFalsy]
+    | nan => simp [checkMaxLength, intGtBound, boundFalsy]
+    | decNan => simp [checkMaxLength, intGtBound, boundFalsy]
+
+/-- a str passes exactly when `min_length ≤ len` and (`max_length` is None or falsy (0, 0.0), or
+    `len ≤ max_length`), bounds of any numeric type compared exactly -/
+theorem string_length_iff (s : List Char) (lo : Bound) (hi : Option Bound) :
+    checkStringLength (.str s) lo hi = .ok () ↔
+      MinAllows s.length lo ∧ (∀ m, hi = some m → boundFalsy m = true ∨ MaxAllows s.length m) := by
+  unfold checkStringLength
+  simp only [Int.ofNat_eq_natCast]
+  cases lo with
+  | fin p q =>
+    by_cases h : (s.length : Int) * q < p
+    · simp [intLtBound, MinAllows, h]; omega
+    · simp only [intLtBound, h, decide_false, lemma_checkMaxLength_iff, MinAllows]
+      constructor
+      · intro h2; exact ⟨by omega, h2⟩
+      · intro h2; exact h2.2
+  | posInf => simp [intLtBound, MinAllows]
+  | negInf => simp [intLtBound, MinAllows, lemma_checkMaxLength_iff]
+  | nan => simp [intLtBound, MinAllows, lemma_checkMaxLength_iff]
+  | decNan => simp [intLtBound, MinAllows]
+
+/-- a str that does not pass raises ValueError (decimal.InvalidOperation only if a bound is a Decimal
+    NaN); a non-str raises TypeError -/
+theorem string_length_else (v : PyVal) (lo : Bound) (hi : Option Bound) :
+    (∀ s, v = .str s →
+      checkStringLength v lo hi = .ok () ∨ checkStringLength v lo hi = .error .valueError ∨
+      (checkStringLength v lo hi = .error .invalidOperation ∧ (lo = .decNan ∨ hi = some .decNan))) ∧
     ((∀ s, v ≠ .str s) → checkStringLength v lo hi = .error .typeError) := by
   constructor
   · rintro s rfl
+    have hm := lemma_checkMaxLength_else (s.length : Int) hi
     unfold checkStringLength
-    simp only []
-    by_cases h1 : (s.length : Int) < lo
-    · simp [h1]
-    · cases hi with
-      | none => simp [h1]
-      | some m => by_cases h2 : m ≠ 0 ∧ (s.length : Int) > m <;> simp [h1, h2]
+    simp only [Int.ofNat_eq_natCast]
+    cases lo with
+    | fin p q =>
+      by_cases h : (s.length : Int) * q < p
+      · simp [intLtBound, h]
+      · simp only [intLtBound, h, decide_false]
+        rcases hm with h1 | h1 | ⟨h1, h2⟩
+        · exact Or.inl h1
+        · exact Or.inr (Or.inl h1)
+        · exact Or.inr (Or.inr ⟨h1, Or.inr h2⟩)
+    | posInf => simp [intLtBound]
+    | negInf =>
+      simp only [intLtBound]
+      rcases hm with h1 | h1 | ⟨h1, h2⟩
+      · exact Or.inl h1
+      · exact Or.inr (Or.inl h1)
+      · exact Or.inr (Or.inr ⟨h1, Or.inr h2⟩)
+    | nan =>
+      simp only [intLtBound]
+      rcases hm with h1 | h1 | ⟨h1, h2⟩
+      · exact Or.inl h1
+      · exact Or.inr (Or.inl h1)
+      · exact Or.inr (Or.inr ⟨h1, Or.inr h2⟩)
+    | decNan => simp [intLtBound]
   · intro h
     cases v with
     | str s => exact absurd rfl (h s)
@@ -428,11 +587,13 @@ theorem string_length_else (v : PyVal) (lo : Int) (hi : Option Int) :
     | int n => rfl
     | other t r => rfl
 
-example : checkStringLength (.str ['a', 'b', 'c']) 3 (some 3) = .ok () ∧
-    checkStringLength (.str ['a', 'b', 'c']) 4 none = .error .valueError ∧
-    checkStringLength (.str ['a', 'b', 'c']) 0 (some 2) = .error .valueError ∧
-    checkStringLength (.str ['a', 'b', 'c']) 0 (some 0) = .ok () ∧
-    checkStringLength (.int 3) 0 none = .error .typeError := by decide
+example : checkStringLength (.str ['a', 'b', 'c']) (.fin 3 1) (some (.fin 3 1)) = .ok () ∧
+    checkStringLength (.str ['a', 'b', 'c']) (.fin 4 1) none = .error .valueError ∧
+    checkStringLength (.str ['a', 'b', 'c']) (.fin 0 1) (some (.fin 2 1)) = .error .valueError ∧
+    checkStringLength (.str ['a', 'b', 'c']) (.fin 0 1) (some (.fin 0 1)) = .ok () ∧
+    checkStringLength (.str ['a', 'b', 'c']) (.fin 7 2) none = .error .valueError ∧
+    checkStringLength (.str ['a', 'b', 'c']) (.fin 0 1) (some (.fin 5 2)) = .error .valueError ∧
+    checkStringLength (.int 3) (.fin 0 1) none = .error .typeError := by decide
 
 /-! ### is_uuid_like -/
 
